@@ -380,6 +380,20 @@ def run_reserved(res):
         pass
     except Exception as e:
         res.violate("undefined-written", "writing an unbound name raised %s: %s" % (type(e).__name__, e))
+    # a name given to render() resolves to the value given, whatever that value is: None and other false values
+    # are values, not "undefined" - with and without strict_undefined, read as a name or through the context
+    for val in (None, 0, "", False, [], 0.0):
+        for strict in (False, True):
+            res.evaluations += 1
+            res.count("falsy_context_values")
+            text = "${v is UNDEFINED}|${repr(v)}|${repr(context['v'])}|${repr(context.get('v', 'dflt'))}|${'v' in context.keys()}<%def name=\"d()\">${repr(v)}</%def>|${d()}"
+            try:
+                out = T(text, strict_undefined=strict).render_unicode(v=val)
+            except Exception as e:
+                out = "%s: %s" % (type(e).__name__, e)
+            exp = "False|%r|%r|%r|True|%r" % (val, val, val, val)
+            if out != exp:
+                res.violate("falsy-context-value", "render(v=%r), strict_undefined=%s: template %r gave %r, expected %r" % (val, strict, text, out, exp))
     # with enable_loop=False, `loop` is an ordinary name
     res.evaluations += 1
     try:
